@@ -3,7 +3,7 @@
 # seeded change applied (does not touch /repo itself). Prints each check's VIOLATION lines and rc.
 # For the final confirmation the same patch is applied to /repo itself (git -C /repo apply) and undone.
 set -u
-patch=$1; shift
+patch=$(readlink -f "$1"); shift
 wt=$(mktemp -d /tmp/seedwt.XXXXXX)
 rmdir "$wt"
 git -C /repo worktree add -q --detach "$wt" HEAD || exit 2
